@@ -600,8 +600,15 @@ class Vstack(Linop):
                 else:
                     end = self.indices[n]
 
+                output_n = linop(input)
+                if output_n.dtype != output.dtype:
+                    output = output.astype(
+                        xp.promote_types(output.dtype, output_n.dtype),
+                        copy=False,
+                    )
+
                 if self.axis is None:
-                    output[start:end] = linop(input).ravel()
+                    output[start:end] = output_n.ravel()
                 else:
                     ndim = len(linop.oshape)
                     axis = self.axis % ndim
@@ -610,7 +617,7 @@ class Vstack(Linop):
                         + [slice(start, end)]
                         + [slice(None)] * (ndim - axis - 1)
                     )
-                    output[slc] = linop(input)
+                    output[slc] = output_n
 
         return output
 
@@ -682,6 +689,12 @@ class Diag(Linop):
                     )
 
                     output_n = linop(input[islc])
+
+                if output_n.dtype != output.dtype:
+                    output = output.astype(
+                        xp.promote_types(output.dtype, output_n.dtype),
+                        copy=False,
+                    )
 
                 if self.oaxis is None:
                     output[ostart:oend] = output_n.ravel()
